@@ -87,13 +87,15 @@ def cutHaystack (sc : SCfg) (bytes : Bytes) (re : Nat) : Bytes :=
 /-- `find_iter_at_in_context(searcher, matcher, bytes, range, |m| { push(m); true })`: all callers pass a callback
 that records the match and returns `true`; the closure inside drops (and stops at) a match with
 `m.start() >= range.end`, except the one that starts exactly at `range.end` when the range ends the haystack
-without a terminator (`isAtUnterminatedEnd`, `beyondRange`: Model/Replace.lean, same Rust functions). -/
+without a terminator (`isAtUnterminatedEnd`, `beyondRange`: Model/Replace.lean, same Rust functions). A kept
+match is handed on as `m.with_end(min(m.end(), range.end))`: with the bounded look-ahead of multi-line mode it may
+reach beyond the lines. -/
 def findIterInContext (sc : SCfg) (find : Oracle) (bytes : Bytes) (rs re : Nat) : List Span :=
   let hay := cutHaystack sc bytes re
   let atEnd := isAtUnterminatedEnd sc.lt hay rs re
   findIterAt (find hay) hay.length rs
     (fun (acc : List Span) m =>
-      if beyondRange re atEnd m.s then (acc, false) else (acc ++ [m], true)) []
+      if beyondRange re atEnd m.s then (acc, false) else (acc ++ [⟨m.s, min m.e re⟩], true)) []
 
 def shiftSpans (rs : Nat) (ms : List Span) : List Span := ms.map fun m => ⟨m.s - rs, m.e - rs⟩
 
